@@ -435,11 +435,29 @@ Definition guard_flags (inputs : list (list event)) : list N :=
   [if u then 1 else 0; if n then 1 else 0].
 
 (* ---- diagnosis (classification of failures by the tie): the first call in a session whose
-   callee differs from the specification's, and the kind of site it happened at:
-   1 = a 78 site (fast path used call_site_cache[slot]), 2 = a 104 site, 3 = a 77 site, 0 = none *)
+   callee differs from the specification's, and the kind of site it happened at *)
+(* another live slot-using site has the same slot id *)
+Definition shares_slot (st : state) (sid : N) (s : site) : bool :=
+  existsb (fun a => negb (fst a =? sid) && slot_user (snd a) && (s_slot (snd a) =? s_slot s))
+          (enum_from 0 (sites st)).
+
+(* 1 = a 78 site whose slot is shared with another live site, or whose cache entry is not the one it
+       wrote (slot collision);
+   4 = a 78 site with a slot of its own that used its own, outdated entry (invalidation missing);
+   2 = a 104 site; 3 = a 77 site; 0 = none *)
 Definition cause_of (st : state) (sid : N) : N :=
   match nth_error (sites st) (N.to_nat sid) with
-  | Some s => match s_form s with Mono _ => 1 | Native _ => 2 | Plain => 3 end
+  | Some s =>
+      match s_form s with
+      | Mono p =>
+          if shares_slot st sid s then 1 else
+          match cache_entry (cache st) (s_slot s) with
+          | Some e => if e_code e =? p then 4 else 1
+          | None => 1
+          end
+      | Native _ => 2
+      | Plain => 3
+      end
   | None => 0
   end.
 
